@@ -18,9 +18,9 @@ theorem cds_preserves (c : PCluster) :
   ⟨rfl, rfl, rfl, rfl, rfl, rfl⟩
 
 /-- the enum mappings, including the defaults for values the code does not know -/
-theorem disc_type_map (n : Nat) :
+theorem disc_type_map (n : Int) :
     convType n = (if n = 3 then .eds else if n = 2 then .logicalDns else if n = 0 then .static else .eds) := rfl
-theorem lb_map (n : Nat) : convLb n = (if n = 2 then .ringHash else .roundRobin) := rfl
+theorem lb_map (n : Int) : convLb n = (if n = 2 then .ringHash else .roundRobin) := rfl
 
 /-- a load assignment keeps its localities and endpoints in order with address, port and weight;
 an assignment without localities is the explicit "no endpoints" value -/
